@@ -768,8 +768,7 @@ def rule_tte(F, R):
                             return e_
                         pr = strip_(x['args'][1]); body_fn = lib.ithir[fs_[0]]
                         if pr is not None and pr['k'] == 'VarRef':
-                            lets_ = [l_ for l_ in walk(body_fn['body']) if l_['k'] == 'Let' and l_['pat'].get('k') == 'Binding' and l_['pat'].get('var') == pr['var'] and l_.get('init')]
-                            pr = strip_(lets_[0]['init']) if len(lets_) == 1 else None
+                            pr = {'k': 'Closure', 'def': pr['ty']['def']} if isinstance(pr.get('ty'), dict) and pr['ty'].get('k') == 'Closure' else None      # a closure bound to a local first: its type names it
                         cl = (lib.ithir.get(pr['def']) or lib.thir.get(pr['def'])) if pr is not None and pr['k'] == 'Closure' else None
                         sel_ok = False; why = 'the predicate handed to the search is not a closure of from_str'
                         if cl is not None:
